@@ -123,6 +123,43 @@ theorem stl_mesh_oob (P : Params α) (m : Mesh α) (ps : List (P3 α)) (hp : m.p
     writeMesh P m = .error .panic :=
   StlL.stl_mesh_oob P m ps hp a b c r hi ha
 
+/-! ### ReadMesh → WriteMesh: exact behaviour (clause 3 itself is `stl_reencode`, at the Read/Write level) -/
+
+/-- **ReadMesh → WriteMesh, exactly.**  For every input `stl.Read` accepts (header `h`, records `ts`) and every
+    precision bundle: re-saving through a mesh does not panic and yields the file with a ZERO header, the same
+    number of records in order, every position word widened and narrowed again (`q32 (up w)`), every normal
+    re-derived as `q32 (avgNormal n n n)` from the normal `n` ReadMesh gave the record's corners (stored one
+    widened, or the geometric one where it is zero) — or all-zero when every stored normal is zero —, and
+    attribute word 0. -/
+theorem stl_mesh_resave (P : Params α) {bs : List Byte} {h : Header} {ts : List Tri}
+    (hd : decode bs = .ok (h, ts)) : resaveMesh P bs = .ok (encode zeroHeader (resaveTris P ts)) :=
+  StlL.stl_mesh_resave P hd
+
+/-- positions survive exactly when narrowing undoes widening on the stored words (the one hypothesis) -/
+theorem stl_mesh_resave_positions (P : Params α) (ts : List Tri)
+    (hid : ∀ t ∈ ts, (t.v1.map P.up).map P.q32 = t.v1 ∧ (t.v2.map P.up).map P.q32 = t.v2 ∧ (t.v3.map P.up).map P.q32 = t.v3) :
+    (resaveTris P ts).map (fun t => (t.v1, t.v2, t.v3)) = ts.map (fun t => (t.v1, t.v2, t.v3)) :=
+  StlL.stl_mesh_resave_positions P ts hid
+
+/-- the attribute word is always lost (a mesh has no place for it) -/
+theorem stl_mesh_resave_attr (P : Params α) (ts : List Tri) : ∀ t ∈ resaveTris P ts, t.attr = 0 :=
+  StlL.stl_mesh_resave_attr P ts
+
+/-- closed instance: attribute word 7 comes back as 0 -/
+theorem stl_mesh_resave_attribute_witness :
+    (resaveTris natParams [⟨⟨0, 0, 1⟩, ⟨0, 0, 0⟩, ⟨1, 0, 0⟩, ⟨0, 1, 0⟩, 7⟩]).map (·.attr) = [0] := by decide
+
+/-- closed instance: a zero stored normal next to a non-zero one does NOT come back as zero — it is replaced
+    by (the narrowing of) what the geometric fallback computed (here `natParams.flatNormal` = first corner) -/
+theorem stl_mesh_resave_zero_normal_mixed_witness :
+    (resaveTris natParams [⟨⟨0, 0, 1⟩, ⟨0, 0, 0⟩, ⟨1, 0, 0⟩, ⟨0, 1, 0⟩, 0⟩, ⟨⟨0, 0, 0⟩, ⟨5, 0, 0⟩, ⟨0, 1, 0⟩, ⟨1, 0, 0⟩, 0⟩]).map (·.n)
+      = [⟨0, 0, 1⟩, ⟨5, 0, 0⟩] := by decide
+
+/-- the hypothesis of `stl_mesh_resave_positions` is satisfiable -/
+example : ∀ t ∈ [(⟨⟨0, 0, 1⟩, ⟨0, 0, 0⟩, ⟨1, 0, 0⟩, ⟨0, 1, 0⟩, 7⟩ : Tri)],
+    (t.v1.map natParams.up).map natParams.q32 = t.v1 ∧ (t.v2.map natParams.up).map natParams.q32 = t.v2 ∧
+    (t.v3.map natParams.up).map natParams.q32 = t.v3 := by decide
+
 /-! ### concrete instances of the hypotheses (non-vacuity) -/
 
 example : decodeRaw (encodeRaw zeroHeader [⟨⟨1,2,3⟩,⟨4,5,6⟩,⟨7,8,9⟩,⟨10,11,0xffc00001⟩,7⟩]) =
